@@ -116,6 +116,54 @@ theorem faulty_history_rel (o : WOpts) (roots : Option (List Cid)) :
         · exact Or.inr ⟨(b, f), by simp, hl.symm⟩
       · exact Or.inr ⟨e, by simp [he], hex⟩
 
+theorem putOneF_api (o : WOpts) (s : Store) (c : Cid) (d : Bytes) (flt : Option Fault) :
+    (s.putOneF o c d flt).1.api = s.api := by
+  unfold Store.putOneF
+  split
+  · rfl
+  · rfl
+  · cases flt with
+    | none => simp [Store.applyEvs]
+    | some f => simp only; split <;> simp [Store.applyEvs]
+
+theorem runPutsF_api (o : WOpts) : ∀ (h : List (Block × Option Fault)) (s : Store), (runPutsF o h s).api = s.api := by
+  intro h
+  induction h with
+  | nil => intro s; rfl
+  | cons e tl ih =>
+    intro s
+    obtain ⟨b, f⟩ := e
+    simp only [runPutsF]
+    rw [ih, putOneF_api]
+
+/-- (3a) **… and the closing Finalize, stated outright**: a fresh read-write blockstore (CARv2 mode), any
+    history of Puts with any transient write failures, then Finalize: the call returns ok and the file is
+    the C05 layout of a log made only of blocks of the history — no debris of a failed Put, nothing else. -/
+theorem faulty_history_then_finalize (o : WOpts) (roots : Option (List Cid)) (h : List (Block × Option Fault))
+    (ix : Index) (hv2 : o.v1 = false)
+    (hix : (runPutsF o h (Store.create .blockstore o roots).1).idx.flatten o.codec = some ix)
+    (h64 : 51 + o.dataPad + o.indexPad + (runPutsF o h (Store.create .blockstore o roots).1).pos < 2 ^ 64) :
+    ∃ log : List Block, (∀ b ∈ log, ∃ e ∈ h, e.1 = b) ∧
+      ((runPutsF o h (Store.create .blockstore o roots).1).step o .finalize).2.1 = .ok ∧
+      ((runPutsF o h (Store.create .blockstore o roots).1).step o .finalize).1.file
+        = layoutV2 o.dataPad o.indexPad (payload roots log) true o.storeIdentity ix.bytes := by
+  have rel0 : Rel o roots (Store.create .blockstore o roots).1 { api := .blockstore, roots := roots.getD [] } :=
+    ⟨create_inv .blockstore o roots, rfl, rfl, rfl, rfl⟩
+  have hopen0 : (Store.create .blockstore o roots).1.finalized = false ∧
+      (Store.create .blockstore o roots).1.closed = false := by simp [Store.create]
+  obtain ⟨st', rel, hf, hc, hlog⟩ := faulty_history_rel o roots h _ _ rel0 hopen0
+  have hapi : (runPutsF o h (Store.create .blockstore o roots).1).api = .blockstore := by
+    rw [runPutsF_api]; simp [Store.create]
+  generalize runPutsF o h (Store.create .blockstore o roots).1 = s at *
+  obtain ⟨evs, he, hfile⟩ := finalize_file o roots s st'.log ix rel.inv ⟨hf, hc⟩ hv2 hix h64
+  refine ⟨st'.log, fun b hb => ?_, ?_, ?_⟩
+  · rcases hlog b hb with hl | hl
+    · simp at hl
+    · exact hl
+  · simp [Store.step, hapi, Store.stepBlockstore, Store.finalizeRO, Store.closeInner, hv2, hf, hc, he, Store.applyEvs]
+  · simp [Store.step, hapi, Store.stepBlockstore, Store.finalizeRO, Store.closeInner, hv2, hf, hc, he, Store.applyEvs,
+      hfile]
+
 /-- (3') The same for the blockstore's batch entry point under a fault on ANY of the batch's write
     calls: whatever the fault does, the store is afterwards related to a specification state — file,
     position and index consistent — that holds only blocks of the old state and of the batch; the
